@@ -75,6 +75,10 @@ class Session:
                 continue
             d0, a0 = before[mach.tag]
             d1 = describe.model_desc(mach.world.m)
+            if id(mach) in self.linked:
+                # a model holding a reference into another model: how that reference's target prints is not its definition
+                d0 = dict(d0, refs={k: v for k, v in d0["refs"].items() if k != "xref"})
+                d1 = dict(d1, refs={k: v for k, v in d1["refs"].items() if k != "xref"})
             diff = describe.diff(d0, d1)
             self.ctx.count("isolation_checks", 1, "reach")
             if diff:
